@@ -2,9 +2,7 @@ package fixedn
 
 import (
 	"errors"
-	"fmt"
 	"math/big"
-	"strconv"
 	"strings"
 )
 
@@ -45,12 +43,12 @@ func ToString(bi *big.Int, precision int) string {
 	if fp.Sign() == 0 {
 		return s
 	}
-	frac := fp.Uint64()
-	trimmed := 0
-	for ; frac%10 == 0; frac /= 10 {
-		trimmed++
+	if bi.Sign() < 0 && dp.Sign() == 0 {
+		s = "-" + s
 	}
-	return s + "." + fmt.Sprintf("%0"+strconv.FormatUint(uint64(precision-trimmed), 10)+"d", frac)
+	frac := fp.Abs(&fp).String()
+	frac = strings.Repeat("0", precision-len(frac)) + frac
+	return s + "." + strings.TrimRight(frac, "0")
 }
 
 // FromString converts a string to a big decimal with the specified precision.
